@@ -105,6 +105,50 @@ pub fn c11(ctx: &mut Ctx, tier: &str, seed: u64) {
             }
         }
     }
+    // `absolutize` of an ABSOLUTE path is `normalize` and nothing else: it must not need the environment.
+    // Run it where the current directory cannot be read (a directory entered and then removed).
+    #[cfg(feature = "std")]
+    {
+        let old = std::env::current_dir().expect("cwd");
+        let gone = std::env::temp_dir().join(format!("tpverif-gone-{}", std::process::id()));
+        if std::fs::create_dir_all(&gone).is_ok() && std::env::set_current_dir(&gone).is_ok() {
+            let _ = std::fs::remove_dir(&gone);
+            let unreadable = std::env::current_dir().is_err();
+            ctx.tally(if unreadable { "vanished-cwd:unreadable" } else { "vanished-cwd:still-readable" });
+            let cases: Vec<(bool, &[u8])> = vec![(false, b"/a/./b/../c"), (false, b"/"), (false, b"//x/.."), (true, br"C:\a\..\b"), (true, br"\\s\h\.\x"), (true, br"\\?\C:\a"), (true, b"c:/a/./b")];
+            for (win, s) in cases {
+                ctx.evals += 1;
+                let rp = format!("x.absolutize-in-a-vanished-cwd {} {}", gen::e(win), hex(s));
+                let n = normalize_b(win, s);
+                let r = crate::util::quiet_catch(|| {
+                    let a = if win { WindowsPath::new(s).absolutize().map(|x| x.into_vec()).ok() } else { UnixPath::new(s).absolutize().map(|x| x.into_vec()).ok() };
+                    let tp = if win { TypedPath::Windows(WindowsPath::new(s)) } else { TypedPath::Unix(UnixPath::new(s)) };
+                    let ta = tp.absolutize().map(|x| x.into_vec()).ok();
+                    let st = std::str::from_utf8(s).unwrap();
+                    let ua = if win { Utf8WindowsPath::new(st).absolutize().map(|x| x.into_string().into_bytes()).ok() } else { Utf8UnixPath::new(st).absolutize().map(|x| x.into_string().into_bytes()).ok() };
+                    let tb = if win { TypedPathBuf::from_windows(s).absolutize().map(|x| x.into_vec()).ok() } else { TypedPathBuf::from_unix(s).absolutize().map(|x| x.into_vec()).ok() };
+                    let tu = if win { Utf8TypedPath::windows(st).absolutize().map(|x| x.into_string().into_bytes()).ok() } else { Utf8TypedPath::unix(st).absolutize().map(|x| x.into_string().into_bytes()).ok() };
+                    vec![("path", a), ("typed", ta), ("utf8", ua), ("typed-buf", tb), ("utf8-typed", tu)]
+                });
+                match r {
+                    Err(_) => ctx.fail("absolutize-of-absolute-ignores-the-environment", None, rp, "panicked".into()),
+                    Ok(v) => {
+                        for (who, got) in v {
+                            if got.as_deref() != Some(n.as_slice()) {
+                                ctx.fail("absolutize-of-absolute-ignores-the-environment", None, rp.clone(), format!("{}: {:?}, normalize gives \"{}\"", who, got.map(|x| lossy(&x)), lossy(&n)));
+                                break;
+                            }
+                        }
+                    }
+                }
+            }
+            // a relative path has no answer here: an error, not a panic
+            if unreadable && crate::util::quiet_catch(|| (UnixPath::new("a").absolutize().is_err(), Utf8WindowsPath::new("a").absolutize().is_err())).ok() != Some((true, true)) {
+                ctx.fail("absolutize-of-relative-without-cwd-is-an-error", None, "x.absolutize-in-a-vanished-cwd u 61".into(), String::new());
+            }
+            std::env::set_current_dir(&old).expect("restore cwd");
+        }
+    }
     ctx.sample(format!("norm w {}", hex(br"C:\a\.\..\..\b\")));
     ctx.sample(format!("norm u {}", hex(b"/../a/./b/../c")));
 }
@@ -462,6 +506,64 @@ pub fn c13(ctx: &mut Ctx, tier: &str, seed: u64) {
                     }
                 }
             }
+        }
+    }
+    // GIANT extension arguments and giant stems (a special path for "large" requests, a length kept in
+    // 24 bits …): every family, owned and `with_extension`, against the documented bytes and against std
+    for m in giant_sizes() {
+        ctx.evals += 1;
+        let ext: Vec<u8> = (0..m).map(|k| b'a' + (k % 26) as u8).collect();
+        let exts = std::str::from_utf8(&ext).unwrap();
+        for (base, stem_end) in [(&b"a/b.c/."[..], 3usize), (b"b.c", 1), (b"dir/name", 8)] {
+            let want: Vec<u8> = [&base[..stem_end], b".", &ext[..]].concat();
+            let rp = format!("x.giant-ext {} bytes onto {}", m, hex(base));
+            let r = crate::util::quiet_catch(|| {
+                let mut got: Vec<(&str, Vec<u8>, bool)> = Vec::new();
+                let mut u = UnixPathBuf::from(base.to_vec());
+                let k = u.set_extension(&ext);
+                got.push(("unix", u.into_vec(), k));
+                let wbase: Vec<u8> = base.iter().map(|b| if *b == b'/' { b'\\' } else { *b }).collect();
+                let mut w = WindowsPathBuf::from(wbase.clone());
+                let k = w.set_extension(&ext);
+                got.push(("windows", w.into_vec().iter().map(|b| if *b == b'\\' { b'/' } else { *b }).collect(), k));
+                let mut u8b = Utf8UnixPathBuf::from(std::str::from_utf8(base).unwrap());
+                let k = u8b.set_extension(exts);
+                got.push(("utf8-unix", u8b.into_string().into_bytes(), k));
+                let mut ty = TypedPathBuf::from_unix(base);
+                let k = ty.set_extension(&ext);
+                got.push(("typed", ty.into_vec(), k));
+                got.push(("with_extension", UnixPath::new(base).with_extension(&ext).into_vec(), true));
+                got.push(("utf8-with_extension", Utf8WindowsPath::new(std::str::from_utf8(&wbase).unwrap()).with_extension(exts).into_string().into_bytes().iter().map(|b| if *b == b'\\' { b'/' } else { *b }).collect(), true));
+                got
+            });
+            match r {
+                Err(_) => ctx.fail("set_extension-panics", None, rp.clone(), format!("extension of {} bytes", m)),
+                Ok(got) => {
+                    let mut stdb = std::path::PathBuf::from(std::ffi::OsStr::from_bytes(base));
+                    stdb.set_extension(std::ffi::OsStr::from_bytes(&ext));
+                    for (who, bytes, k) in got {
+                        if !k || bytes != want || bytes != stdb.as_os_str().as_bytes() {
+                            ctx.fail("giant-extension", None, rp.clone(), format!("{}: returned {} with {} bytes (want {}), tail \"{}\"", who, k, bytes.len(), want.len(), lossy(&bytes[bytes.len().saturating_sub(12)..])));
+                            break;
+                        }
+                    }
+                }
+            }
+        }
+        // giant stem, small extension
+        let stem: Vec<u8> = (0..m).map(|k| b'a' + (k % 26) as u8).collect();
+        let base: Vec<u8> = [b"d/", &stem[..], b".old"].concat();
+        let want: Vec<u8> = [b"d/", &stem[..], b".n"].concat();
+        let r = crate::util::quiet_catch(|| {
+            let mut u = UnixPathBuf::from(base.clone());
+            u.set_extension(b"n");
+            let mut w = Utf8UnixPathBuf::from(std::str::from_utf8(&base).unwrap());
+            w.set_extension("n");
+            (u.into_vec(), w.into_string().into_bytes())
+        });
+        match r {
+            Ok((a, b)) if a == want && b == want => {}
+            _ => ctx.fail("giant-extension", None, format!("x.giant-stem {} bytes", m), String::new()),
         }
     }
     let _ = sp;
